@@ -130,6 +130,9 @@ def setup(scratch):
     _state["base_path"] = factory.base_path
     _state["chroot_url"] = factory.cleanups[0].__self__.get_url()
     _model_env["T"] = T
+    _state["log_bare"] = []
+    _state["bare"] = _Rec(local, _state["log_bare"])
+    _state["served_url"] = local.base
     # second served tree T/j with REAL control directories, for the jail cases
     from breezy import controldir
     J = os.path.join(T, "j")
@@ -165,8 +168,43 @@ def _path_case(rcp, path, vfs):
     return {"kind": "path", "rcp": rcp, "path": bytes(path), "vfs": bool(vfs)}
 
 
+def _bare_case(rcp, path, vfs):
+    """Same request classes, but over a bare LocalTransport (no chroot stack below)."""
+    return {"kind": "bare", "rcp": rcp, "path": bytes(path), "vfs": bool(vfs)}
+
+
+def _thr(ops):
+    return {"kind": "jailthr", "ops": [list(o) for o in ops]}
+
+
+def _tilde_traversals():
+    """Home-directory prefix followed by enough literal '..' to climb above the root."""
+    out = []
+    for rcp in ("/", "/srv/", "srv"):
+        r = rcp if rcp.startswith("/") else "/" + rcp
+        if not r.endswith("/"):
+            r += "/"
+        for home in (b"~", b"~joe", b"~ann", b"~zed"):
+            for k in (1, 2, 3):
+                for tail in (b"f", b"secret/x"):
+                    p = r.encode() + home + b"/" + b"../" * k + tail
+                    for vfs in (True, False):
+                        out.append(_path_case(rcp, p, vfs))
+                        out.append(_bare_case(rcp, p, vfs))
+    return out
+
+
 def corpus():
     out = []
+    out.append(_bare_case("/", b"~/../../f", True))
+    out.append(_bare_case("/", b"~ann/../../x", True))
+    out.append(_bare_case("/srv/", b"/srv/~joe/../../secret/x", False))
+    out.append(_bare_case("/", b"a/f", True))
+    out.append(_bare_case("/", b"..%2Fsecret/x", True))
+    # another connection's request finishes while this one is between setup_jail and its open
+    out.append(_thr([("setup", 0, "proj"), ("setup", 1, ""), ("teardown", 1), ("open", 0, "proj-x")]))
+    out.append(_thr([("setup", 0, "d/proj"), ("setup", 1, "d/proj"), ("open", 1, "d/proj/in"), ("teardown", 1),
+                     ("open", 0, "other"), ("open", 0, "d/proj/in")]))
     for w in WITNESSES:
         for vfs in (True, False):
             out.append(_path_case("/", w, vfs))
@@ -255,6 +293,26 @@ def _jail2_cases():
     return out
 
 
+def _jailthr_cases(rng, n):
+    """Interleavings of setup_jail / teardown_jail / open issued by two request threads."""
+    roots = ["proj", "d/proj", "", "other"]
+    cands = ["proj", "proj/in", "proj-x", "other", "d/proj", "d/proj/in", "d/projs", "d", ""]
+    out = []
+    for _ in range(n):
+        ops = []
+        for _ in range(rng.randint(3, 7)):
+            th = rng.randint(0, 1)
+            k = rng.random()
+            if k < 0.3:
+                ops.append(("setup", th, rng.choice(roots)))
+            elif k < 0.5:
+                ops.append(("teardown", th))
+            else:
+                ops.append(("open", th, rng.choice(cands)))
+        out.append(_thr(ops))
+    return out
+
+
 def cases(rng, tier):
     import itertools
     maxlen = 3 if tier == "quick" else 4
@@ -276,6 +334,19 @@ def cases(rng, tier):
             continue
         rcp = rng.choice(RCPS) if rng.random() < 0.5 else "/"
         yield _path_case(rcp, _with_root(rng, rcp, b"".join(toks)), rng.random() < 0.6)
+    for c in _tilde_traversals():
+        yield c
+    for _ in range(300 if tier == "quick" else 3000):      # general paths over the bare backing transport
+        n = rng.randint(1, 6)
+        toks = [rng.choice(alpha) for _ in range(n)]
+        if rng.random() < 0.6:
+            toks = [x for t in toks for x in (t, b"/")][:-1]
+        if not _ok_len(toks):
+            continue
+        rcp = rng.choice(RCPS) if rng.random() < 0.4 else "/"
+        yield _bare_case(rcp, _with_root(rng, rcp, b"".join(toks)), rng.random() < 0.6)
+    for c in _jailthr_cases(rng, 60 if tier == "quick" else 400):
+        yield c
     for c in _jail2_cases():
         yield c
     for c in _jail_cases(rng, 168):      # all of them: 'a' vs 'ab' is a string-prefix sibling
@@ -326,6 +397,91 @@ def impl(inp):
     from dromedary import urlutils
     bt = _state["bt"]
     log = _state["log"]
+    if inp["kind"] == "bare":
+        path = bytes(inp["path"])
+        cls = vfs.GetRequest if inp["vfs"] else request.SmartServerRequest
+        req = cls(_state["bare"], inp["rcp"])
+        try:
+            tr = req.translate_client_path(path)
+        except (UnicodeDecodeError, PathNotChild, urlutils.InvalidURLJoin, urlutils.InvalidURL, ValueError, IndexError) as e:
+            return [Err(type(e).__name__)]
+        trb = tr.encode("utf-8", "surrogateescape")
+        if inp["vfs"]:
+            blog = _state["log_bare"]
+            del blog[:]
+            out = _classify(lambda: req.execute(path).body)
+            gets = [a[0] for (name, a) in blog if name == "get_bytes"]
+            if len(gets) != 1:
+                raise RuntimeError("expected exactly one get_bytes on the local transport, saw %r" % (blog,))
+            return [trb, out, _steps_inside(gets[0]), gets[0].encode("utf-8", "surrogateescape")]
+        try:
+            t = req.transport_from_client_path(path)
+        except (urlutils.InvalidURL, ValueError, OSError) as e:
+            return [trb, None, None]
+        return [trb, t.base.encode("utf-8", "surrogateescape"), t.base.startswith(_state["served_url"])]
+    if inp["kind"] == "jailthr":
+        import queue
+        import threading
+        from breezy import transport as _mod_transport
+        from breezy.bzr import bzrdir
+        base = _state["jroots"][0]
+        bt2 = _state["factory2"].transport
+        held = {}
+
+        def do(op):
+            if op[0] == "setup":
+                r = request.SmartServerRequest(bt2, "/", jail_root=_mod_transport.get_transport_from_url(base + op[2]))
+                r.setup_jail()
+                held[op[1]] = r
+                return None
+            if op[0] == "teardown":
+                request.SmartServerRequest(bt2, "/").teardown_jail()
+                return None
+            target = _mod_transport.get_transport_from_url(base + op[2])
+            try:
+                request._pre_open_hook(target)
+                hook = True
+            except errors.JailBreak:
+                hook = False
+            try:
+                bzrdir.BzrDir.open_from_transport(target)
+                opened = "opened"
+            except errors.JailBreak:
+                opened = "JailBreak"
+            except errors.NotBranchError:
+                opened = "NotBranchError"
+            return [hook, opened]
+
+        def worker(q, res):
+            while True:
+                op = q.get()
+                if op is None:
+                    return
+                try:
+                    res.put(("ok", do(op)))
+                except BaseException as e:      # noqa
+                    res.put(("exc", e))
+
+        qs = [queue.Queue(), queue.Queue()]
+        res = queue.Queue()
+        ths = [threading.Thread(target=worker, args=(q, res), daemon=True) for q in qs]
+        for t in ths:
+            t.start()
+        outs = []
+        try:
+            for op in inp["ops"]:
+                qs[op[1]].put(tuple(op))
+                kind, val = res.get(timeout=60)
+                if kind == "exc":
+                    raise val
+                if op[0] == "open":
+                    outs.append(val)
+        finally:
+            for q in qs:
+                q.put(None)
+            for t in ths:
+                t.join(10)
+        return outs
     if inp["kind"] == "jail2":
         from breezy import transport as _mod_transport
         from breezy.bzr import bzrdir
@@ -413,6 +569,16 @@ def _segs(l):
 
 
 def model_term(inp):
+    if inp["kind"] == "bare":
+        return f"run_case_bare {coq_bool(inp['vfs'])} {_cb(inp['rcp'])} {_cb(inp['path'])}"
+    if inp["kind"] == "jailthr":
+        def one(op):
+            if op[0] == "setup":
+                return f"SSetup {coq_N(op[1])} {_cb(op[2])}"
+            if op[0] == "teardown":
+                return f"STeardown {coq_N(op[1])}"
+            return f"SOpen {coq_N(op[1])} {_cb(op[2])}"
+        return "run_jail_threads " + coq_list([one(o) for o in inp["ops"]])
     if inp["kind"] == "jail2":
         return (f"run_jail2 {coq_bool(inp['jail'])} {coq_N(inp['rsrv'])} {_cb(inp['root'])} "
                 f"{coq_N(inp['csrv'])} {_cb(inp['cand'])}")
@@ -429,6 +595,12 @@ def impl_obs(inp, obs):
         return obs[0]
     if inp["kind"] == "jail2":
         return obs[:2]
+    if inp["kind"] == "jailthr":
+        return [o[0] for o in obs]
+    if inp["kind"] == "bare":
+        if len(obs) == 1:
+            return obs
+        return obs[:3] if inp["vfs"] else obs[:1]
     return obs
 
 
@@ -436,6 +608,37 @@ def oracle(inp, obs):
     """Rejected, or the resolved local path is inside the served directory."""
     if isinstance(obs, Err):
         return "driver error " + str(obs)
+    if inp["kind"] == "bare":
+        if len(obs) == 1:
+            return None
+        who = f"client path {bytes(inp['path'])!r} ({'VFS' if inp['vfs'] else 'plain'} verb, root {inp['rcp']!r}, bare local backing transport)"
+        if inp["vfs"]:
+            tr, out, inside, reached = obs
+            if isinstance(out, bytes) and not out.decode("utf-8", "replace").startswith(S + "/"):
+                return f"{who} read the file {out!r} outside the served directory {S!r} (relpath {reached!r})"
+            if inside is False:
+                return f"{who} was translated to {reached!r}, which resolves above the served directory (outcome {out!r})"
+            return None
+        tr, base, inside = obs
+        if inside is False:
+            return f"{who}: transport_from_client_path returned a transport at {base!r}, outside the served directory"
+        return None
+    if inp["kind"] == "jailthr":
+        jail = {}
+        k = 0
+        for op in inp["ops"]:
+            if op[0] == "setup":
+                jail[op[1]] = _real(op[2])
+            elif op[0] == "teardown":
+                jail.pop(op[1], None)
+            else:
+                hook, opened = obs[k]
+                k += 1
+                rr = jail.get(op[1])
+                if rr is not None and _real(op[2])[:len(rr)] != rr and (hook or opened == "opened"):
+                    return (f"thread {op[1]} is inside a request jailed at {'/'.join(rr)!r}; after the operations {inp['ops']!r} "
+                            f"(other thread's requests included) its open of {op[2]!r} outside the jail gave hook={hook} {opened}")
+        return None
     if inp["kind"] == "jail2":
         hook, base, opened = obs
         rr = inp["real_root"]
@@ -478,6 +681,8 @@ def finding_matches(fid, inp, obs, why):
 def nontrivial(inp, obs):
     if inp["kind"] in ("jail", "jail2"):
         return inp["jail"]
+    if inp["kind"] == "jailthr":
+        return True
     p = bytes(inp["path"])
     return any(c in p for c in b".%~\x00") or any(c >= 128 for c in p)
 
@@ -486,8 +691,11 @@ def distribution(inputs, observations):
     d = {"plain": 0, "vfs": 0, "jail": 0, "rejected_by_translate": 0, "read_a_file": 0, "read_outside": 0,
          "resolves_above": 0, "userdir_expanded": 0, "by_root": {}}
     for i, o in zip(inputs, observations):
-        if i["kind"] in ("jail", "jail2"):
+        if i["kind"] in ("jail", "jail2", "jailthr"):
             d["jail"] += 1
+            continue
+        if i["kind"] == "bare":
+            d["bare"] = d.get("bare", 0) + 1
             continue
         d["vfs" if i["vfs"] else "plain"] += 1
         d["by_root"][i["rcp"]] = d["by_root"].get(i["rcp"], 0) + 1
